@@ -264,8 +264,18 @@ func c02LeftAssoc(c *Ctx, ro *ParserRoles) {
 		c.R.Undecided(rule, "right-operand-precedence", pos, "no recursive parse of the right operand found in the loop")
 	}
 	// node construction: Left = loop-carried operand, Right = recursive result; result = loop-carried
-	if ro.ClimbOperandParam >= 0 && recCall != nil {
-		operand := f.Params[ro.ClimbOperandParam]
+	if (ro.ClimbOperandParam >= 0 || ro.MergedBinary) && recCall != nil {
+		var operand *ssa.Parameter
+		if ro.ClimbOperandParam >= 0 {
+			operand = f.Params[ro.ClimbOperandParam]
+		}
+		isOperand := func(rt Root) bool {
+			if operand != nil {
+				return rt.Kind == "param" && rt.V == ssa.Value(operand)
+			}
+			// merged form: the operand the function parsed itself before the loop
+			return rt.Kind == "call" && rt.Fn != nil && c.canon(rt.Fn) == ro.Unary && len(rt.Path) == 0
+		}
 		leftIdx, rightIdx := c.makerParamFor(ro.MakeBinary, "Left"), c.makerParamFor(ro.MakeBinary, "Right")
 		found := false
 		for bb := range loop.Body {
@@ -282,13 +292,13 @@ func c02LeftAssoc(c *Ctx, ro *ParserRoles) {
 				l, r := call.Call.Args[leftIdx], call.Call.Args[rightIdx]
 				lok := false
 				for _, rt := range plainOrigins.Roots(l) {
-					if rt.Kind == "param" && rt.V == ssa.Value(operand) {
+					if isOperand(rt) {
 						lok = true
 					}
 				}
 				// and nothing else than operand / previous node
 				for _, rt := range plainOrigins.Roots(l) {
-					if !(rt.Kind == "param" && rt.V == ssa.Value(operand)) && !(rt.Kind == "call" && rt.Fn == ro.MakeBinary) {
+					if !isOperand(rt) && !(rt.Kind == "call" && rt.Fn == ro.MakeBinary) {
 						lok = false
 					}
 				}
@@ -311,7 +321,7 @@ func c02LeftAssoc(c *Ctx, ro *ParserRoles) {
 			}
 			good := true
 			for _, rt := range plainOrigins.Roots(ret.Results[0]) {
-				if !(rt.Kind == "param" && rt.V == ssa.Value(operand)) && !(rt.Kind == "call" && rt.Fn == ro.MakeBinary) {
+				if !isOperand(rt) && !(rt.Kind == "call" && rt.Fn == ro.MakeBinary) {
 					good = false
 				}
 			}
@@ -566,6 +576,10 @@ func c02Layers(c *Ctx, ro *ParserRoles, rule string) {
 		chk("typeof-operand", st, st.Val, "the operand of typeof", ro.Unary)
 	}
 	// binary wrapper: operand from unary level
+	if ro.MergedBinary {
+		// the loop function parses its first operand itself: that callee is the unary level by construction of the roles
+		c.R.Add(rule, "binary-operand", c.P.Pos(ro.Binary.Pos()), OK, "")
+	}
 	instrs(ro.Binary, func(b *ssa.BasicBlock, i int, in ssa.Instruction) {
 		if call, ok := in.(*ssa.Call); ok && calleeOf(call) == ro.Climb && ro.ClimbOperandParam >= 0 {
 			chk("binary-operand", in, call.Call.Args[ro.ClimbOperandParam], "the first operand of a binary expression", ro.Unary)
